@@ -199,15 +199,17 @@ def render(reader: io.Reader, writer: io.Writer, allowed: Optional[List[str]] = 
         allowed = []
     if reader.eof():
         options.panic('premature eof')
+    if reader.escaped == reader.pos:
+        return False    # An escaped line is paragraph text.
     for d in defs:
         if allowed and d.name not in allowed:
             continue
         match = d.match.search(reader.cursor)
         if match is not None:
             if match[0][0] == '\\':
-                # Drop backslash escape and continue.
-                reader.cursor = reader.cursor[1:]
-                continue
+                # Drop backslash escape, the line is now paragraph text.
+                reader.unescape()
+                return False
             if d.verify and not d.verify(match, reader):
                 continue
             text: str
